@@ -68,6 +68,10 @@ def h_life(sp, G=2, L=4, K=2, inside=1, outside_routes=True, nonpos=False, prefi
     solver-chosen permutation of these waits (all PAUSED, every shape of a three-entry wait heap), followed by
     the L free operations."""
     items = ITEMS_NONPOS if nonpos else ITEMS
+    _st = CoroutineState
+    sp.check(len({_st.ACTIVE, _st.PAUSED, _st.TERMINATED}) == 3 and _st.ACTIVE is not _st.PAUSED
+             and _st.PAUSED is not _st.TERMINATED and _st.ACTIVE is not _st.TERMINATED, 'states-distinct',
+             'ACTIVE, PAUSED and TERMINATED are not three different states')
     flush = 3 if prefix_waits is None else max(prefix_waits) + 2    # >= longest wait + 1
     H = Ctx()
     H.sp = sp
